@@ -73,7 +73,7 @@ PLAN = [("single", len(SINGLES), len(SINGLES)),
         ("pair", len(PAIRS), len(PAIRS)),
         ("subset", 400, 6000), ("unknown", 120, 600), ("npt_low", 80, 600),
         ("npt_fixed", 80, 600), ("reuse", 60, 400),
-        ("narrow_box", 80, 600),
+        ("narrow_box", 80, 600), ("debug_sizes", 60, 400),
         ("degenerate", 150, 1500),
         ("defaults", 4, 8)]
 EXHAUSTIVE = False
@@ -525,6 +525,27 @@ def run_case(case):
                     f"{e_ri!r}, {e_rf!r}", mechanism="narrow_box:radii"))
         nt = f"narrow_box|n{n}|{pick}|{float(np.min(w))}"
         sample = {"supplied": supplied, "min_width": float(np.min(w))}
+    elif fam == "debug_sizes":
+        # debug=True must not change which exception an invalid size raises
+        n = int(rng.integers(1, 4))
+        spec = base_spec(n)
+        spec["options"]["maxfev"] = 3 * n + 8
+        spec["options"]["debug"] = True
+        name = str(rng.choice(["filter_size", "history_size", "maxfev",
+                               "maxiter", "nb_points"]))
+        val = [0, -1, 0.5, 1, 3][int(rng.integers(5))]
+        if name == "nb_points" and val in (1, 3):
+            val = n + 1 if val == 1 else 2 * n + 1
+        put(spec, name, val)
+        if name == "history_size":
+            spec["options"]["store_history"] = True
+        supplied = dict(spec["options"])
+        rec = mrun.run(spec)
+        judge(n, supplied, rec, viols, info)
+        for v in viols:
+            v["witness"]["mechanism"] = "debug_sizes:" + name
+        nt = f"debug_sizes|{name}|{val}"
+        sample = {"setting": name, "value": val, "debug": True}
     elif fam == "npt_low":
         # nb_points below n+1 (also fractional) together with something that
         # ends the run during the initial sampling: still a ValueError
